@@ -13,6 +13,8 @@ import (
 	"context"
 	"encoding/json"
 	"fmt"
+	"github.com/sourcenetwork/immutable"
+	"github.com/sourcenetwork/lens/host-go/config/model"
 	"os"
 	"regexp"
 	"runtime/debug"
@@ -369,6 +371,17 @@ func (w *world) exec(l string) {
 		default:
 			w.out.Emit(l, "error:"+strings.ReplaceAll(err.Error(), " ", "_"))
 		}
+	case "patch": // patch n: a field is added to both collections (a new collection version); later indexes belong to it
+		for _, c := range []string{"I", "P"} {
+			p := fmt.Sprintf(`[{"op": "add", "path": "/%s/Fields/-", "value": {"Name": "extra%s", "Kind": "Int"}}]`, c, t[1])
+			must(w.n.DB.PatchSchema(ctx, p, immutable.None[model.Lens](), true))
+		}
+		var err error
+		w.ci, err = w.n.DB.GetCollectionByName(ctx, "I")
+		must(err)
+		w.cp, err = w.n.DB.GetCollectionByName(ctx, "P")
+		must(err)
+		w.out.Emit(l, "ok")
 	case "doc": // doc k name age nums tags meta
 		js := jsonOf(t[1], t[2], t[3], t[4], t[5], strings.Join(t[6:], " "))
 		di, err := client.NewDocFromJSON([]byte(js), w.ci.Definition())
@@ -645,7 +658,7 @@ func genCase(r *vc.Rng, id uint64) []string {
 			pending = append(pending, ix)
 		}
 	}
-	nk := 0
+	nk, npatch := 0, 0
 	var live []string
 	nops := 10 + r.Intn(14)
 	for i := 0; i < nops; i++ {
@@ -676,6 +689,10 @@ func genCase(r *vc.Rng, id uint64) []string {
 			live = append(live[:j], live[j+1:]...)
 		default:
 			if len(pending) > 0 {
+				if r.Chance(1, 2) {
+					npatch++
+					lines = append(lines, fmt.Sprintf("patch %d", npatch))
+				}
 				lines = append(lines, pending[0])
 				pending = pending[1:]
 			}
@@ -683,6 +700,10 @@ func genCase(r *vc.Rng, id uint64) []string {
 		if r.Chance(1, 4) {
 			lines = append(lines, "q "+genFilter(r))
 		}
+	}
+	if len(pending) > 0 && r.Chance(1, 2) {
+		npatch++
+		lines = append(lines, fmt.Sprintf("patch %d", npatch))
 	}
 	lines = append(lines, pending...)
 	for i := 0; i < 14; i++ {
